@@ -373,6 +373,11 @@ class ScoredCollector(Collector):
         # Call specialized method on subclass
         return self._collect(global_docnum, score)
 
+    # Set when block skipping or matcher replacement against a minimum score
+    # was used at any point of the search (the answer can differ per segment
+    # and per replaced matcher), so the running total may be an undercount
+    _inexact_count = False
+
     def matches(self):
         minscore = self.minscore
         matcher = self.matcher
@@ -390,6 +395,10 @@ class ScoredCollector(Collector):
             if replace:
                 if replacecounter == 0 or self.minscore != minscore:
                     self.matcher = matcher = matcher.replace(minscore or 0)
+                    if minscore:
+                        # The replacement may have dropped matching documents
+                        # that cannot reach the minimum score
+                        self._inexact_count = True
                     self.replaced_times += 1
                     if not matcher.is_active():
                         break
@@ -437,12 +446,15 @@ class TopCollector(ScoredCollector):
         self.total = 0
 
     def _use_block_quality(self):
-        return (self.usequality
-                and not self.top_searcher.weighting.use_final
-                and self.matcher.supports_block_quality())
+        use = (self.usequality
+               and not self.top_searcher.weighting.use_final
+               and self.matcher.supports_block_quality())
+        if use:
+            self._inexact_count = True
+        return use
 
     def computes_count(self):
-        return not self._use_block_quality()
+        return not (self._inexact_count or self._use_block_quality())
 
     def all_ids(self):
         # Since this collector can skip blocks, it doesn't track the total
